@@ -283,7 +283,7 @@ func runConnScript(c *Ctx, limit int64, script []connStep, tag string) (decision
 	d := newConnDriver(limit)
 	defer d.close()
 	if d.otherRefused.Load() > 0 {
-		c.Violation("controlled/rejected-below-limit", sfmt("a freshly built limiter (limit 1, nothing in flight) rejected the first request of %d source(s): limiters of one process are not independent", d.otherRefused.Load()), nil)
+		c.Violation("controlled/rejected-below-limit", sfmt("a freshly built limiter (limit 1, nothing in flight) rejected the first request of %d of 4 distinct sources: limiters of one process share state, or distinct sources share a token", d.otherRefused.Load()), nil)
 		return nil, nil, false
 	}
 	inflight := map[string][]int{}
